@@ -489,6 +489,16 @@ def check_registry_tables(run, ctx):
                 pairs.add((src, fld, mode))
         n += 1
         want = {(k, v, 'write') for k, v in TABLES.items()}
+        # every element of each list is filed: the entry() call of a loop is control-dependent on nothing but the iterator
+        for b, t in reg.calls():
+            if callee_name(t) == N.HM + 'entry':
+                for (br, succ) in reg.cdeps.get(b, ()):
+                    de = ex.operand(reg.term(br)['discr']) if reg.term(br)['k'] == 'switch' else None
+                    is_scan = de is not None and de[0] == 'discr' and any(c[1].endswith('Iterator::next') for c in calls_in(de[1]))
+                    if not is_scan:
+                        run.bad('C12-S1', 'register/conditional-filing', 'register files a tag / event / dependency only under an extra condition (%s): some declared names are never '
+                                'entered into the table, so invalidating by them misses this cache' % reg.loc(br), site='%s (%s)' % (reg.name, reg.loc(br)),
+                                oracle='every declared tag, event and dependency is filed')
         if pairs != want:
             run.bad('C12-S1', 'register/table-mismatch', 'register files metadata lists into the wrong table: found (list, table, lock) %s, expected %s' % (sorted(pairs, key=str), sorted(want)),
                     site=reg.name, oracle='tags -> tag_to_caches, events -> event_to_caches, dependencies -> dependency_to_caches')
@@ -516,6 +526,11 @@ def check_registry_tables(run, ctx):
             continue
         ex = Expr(body)
         gets = [(b, t) for b, t in body.calls() if callee_name(t) == N.HM + 'get']
+        mods = [callee_name(t).rsplit('::', 1)[-1] for b, t in body.calls() if callee_name(t) in (N.HM + 'remove', N.HM + 'clear', N.HM + 'insert', N.HM + 'retain', N.HM + 'drain', N.HM + 'remove_entry')]
+        if mods:
+            run.bad('C12-S1', fn + '/consumes-registration', '%s modifies the registry table (%s): a cache is registered once, so the next invalidation by the same name no longer finds it'
+                    % (fn, ', '.join(mods)), site=body.name, oracle='invalidation reads the tables, registration writes them')
+            continue
         calls = [(b, t) for b, t in body.calls() if any(cb.id == (ic_body.id if ic_body else None) for cb in ctx.prog.lookup(t))]
         okk = False
         got = None
